@@ -124,6 +124,13 @@ static int chooseNext(int me) {
   if (cfg.pct_depth > 0) {
     for (size_t k = 0; k < changePoints.size(); ++k)
       if (changePoints[k] == steps && me >= 0) slots[me].prio = --lowPrio;
+    // PCT never preempts the thread with the highest priority unless it yields.  A busy loop without a spin hint (e.g. retrying
+    // to steal while the victim's lock holder is descheduled) would then run for ever: after a long uninterrupted run the
+    // running thread is treated as if it had yielded.  Real schedulers are at least this fair.
+    static int lastRun = -1;
+    static long runLen = 0;
+    if (me == lastRun) ++runLen; else { lastRun = me; runLen = 0; }
+    if (me >= 0 && runLen > 20000) { slots[me].prio = --lowPrio; runLen = 0; }
     int best = cands[0];
     for (int i = 1; i < nc; ++i) if (slots[cands[i]].prio > slots[best].prio) best = cands[i];
     return best;
